@@ -50,6 +50,10 @@ CHECKS["C06"] = dict(engine="sqlite-store", category="exploration",
    text="Seeded batch histories against the real SQLite store (go-sqlite3, in-memory and file databases, DELETE/WAL), inserted directly or through concurrent handler sessions whose interleaving decides the batch split; after every batch the match-everything answer is judged against the specification set built from the statement (newest per address, deletion regardless of arrival order, ephemeral never stored, all seven fields) and 1-4 random filter lists against it with the tie-tolerant answer checker. Fault-free configuration (C14 owns faults). Sampling, not proof.",
    note="Trusted: the reference predicate/answer checker and store specification (sqlite_engine.go); SQLite and database/sql are real code, not models.",
    technique="deterministic simulation: seeded batch histories (schedule-decided batch split) + specification set and answer checker", design="3/C06")
+CHECKS["C14"] = dict(engine="sqlite-faults", category="fault_enumeration",
+   text="For each sampled (pre-history, batch) the batch's N driver calls are learned under a counting driver and EVERY k in 1..N is executed as injected I/O error, as context cancellation and as process death (database files copied at that call boundary, copy reopened, SQLite's recovery runs) - each time the probe answers must equal those before the batch, and a retry must lead to the answers of a single success; plus real SQLITE_FULL, repeat-after-success, fail/fail/succeed through the handler's retry loop under the simulated clock, close/reopen and dirty reopen after every pre-history batch, and equality with a twin database that never restarted. The fault points of a sampled case are enumerated completely; the cases themselves are sampled.",
+   note="Trusted: the fault-injecting driver wrapper (simrt/faultdriver.go); crash points are driver-call boundaries (no torn writes inside one SQLite commit); SQLite, database/sql and go-sqlite3 are real.",
+   technique="deterministic simulation: exhaustive fault-point enumeration per sampled batch (error / cancel / crash copy), answer equality oracle", design="3/C14")
 ALL = ["C%02d" % i for i in range(1, 21)]
 PENDING = "check not built yet in this revision of /verif (planned: DESIGN.md section 3); not claimed"
 m = {
@@ -67,6 +71,7 @@ m = {
    {"name": "concurrent-cache", "path": "sim/props/c15_concurrent.go", "serves_properties": ["C15"], "kind_free_text": "statement-level interleavings of cache operations, porcupine linearizability check"},
    {"name": "merge", "path": "sim/props/merge_engine.go", "serves_properties": ["C08", "C09"], "kind_free_text": "real MergeHandler over scripted children, every emission a scheduler decision"},
    {"name": "mw-limits / mw-stateful / mw-metrics", "path": "sim/props/mw_engine.go", "serves_properties": ["C17", "C18", "C19"], "kind_free_text": "middleware stacks between scripted clients and a recording downstream, simulated clock"},
+   {"name": "sqlite-faults", "path": "sim/props/c14_faults.go", "serves_properties": ["C14"], "kind_free_text": "fault-injecting database/sql driver over real go-sqlite3; every driver call of a batch is failed, cancelled and crashed"},
    {"name": "sqlite-store", "path": "sim/props/sqlite_engine.go", "serves_properties": ["C06"], "kind_free_text": "real SQLite behind database/sql, batch histories, specification set"},
    {"name": "cache", "path": "sim/props/cache_engine.go", "serves_properties": ["C03", "C04", "C05"], "kind_free_text": "seeded operation and restart-fault sequences against an executable specification (relation)"},
  ],
